@@ -1010,6 +1010,17 @@ void w_run(long budget, long stall_n)
                 }
                 gptr[g] = &groups[g];
         }
+        {
+                /* supported descriptor domain: the packed match state (2 bits per registration) must fit the command capacity */
+                size_t slots = 0;
+                for (g = 0; g < ngrp; g++)
+                        slots += groups[g].cmd_num;
+                if ((slots + 3) / 4 > ccap) {
+                        emit("Q 0 invalid 0 0 0 0 0 0\nEND\n");
+                        if (out) fflush(out);
+                        return;
+                }
+        }
         memset(&desc, 0, sizeof desc);
         desc.cmd_group = gptr;
         desc.cmd_group_num = (size_t)ngrp;
